@@ -1,9 +1,12 @@
 #!/bin/bash
 # usage: demo_defect.sh <op> <args...>   -- runs the replay driver on /repo HEAD (before) and on the working tree (after)
+# (uses diff/apply, never `git stash`: the stash is shared between worktrees)
 set -e
-cd /repo; git stash -q
+cd /repo; git diff > /tmp/demo_defect.$$.diff
+[ -s /tmp/demo_defect.$$.diff ] && git apply -R /tmp/demo_defect.$$.diff
 (cd /verif/replay && cargo build --offline -q 2>/dev/null)
 echo -n "before: "; /verif/replay/target/debug/pocket-replay "$@" | cut -c1-300
-cd /repo; git stash pop -q
+cd /repo; [ -s /tmp/demo_defect.$$.diff ] && git apply /tmp/demo_defect.$$.diff
+rm -f /tmp/demo_defect.$$.diff
 (cd /verif/replay && cargo build --offline -q 2>/dev/null)
 echo -n "after:  "; /verif/replay/target/debug/pocket-replay "$@" | cut -c1-300
